@@ -42,8 +42,18 @@ def validate(traces: list, shards: int = 12, timeout: int = 1800) -> tuple[dict,
                 raise tlc.MachineryError('TapeVMTrace: TLC reported ' + res.violated + '\n' + res.errtrace[:3000])
             for r in res.records:
                 if isinstance(r, dict) and 'tid' in r:
-                    verdicts[idx[r['tid'] - 1]] = r
-            missing = [i for i in idx if i not in verdicts]
+                    # one record per disagreement (resynced ones have final = False) and a final record
+                    i = idx[r['tid'] - 1]
+                    v = verdicts.setdefault(i, {'ok': True, 'failures': [], 'done': False})
+                    if not r['ok']:
+                        v['failures'].append(r)
+                        v['ok'] = False
+                    if r.get('final'):
+                        v['done'] = True
+                        v['last'] = r
+                        if r['ok'] is False and r not in v['failures']:
+                            v['failures'].append(r)
+            missing = [i for i in idx if i not in verdicts or not verdicts[i]['done']]
             if missing:
                 raise tlc.MachineryError(f'TapeVMTrace: no verdict for traces {missing[:5]} '
                                          f'({len(missing)} of {len(idx)})\n' + res.output[-3000:])
